@@ -104,6 +104,31 @@ func c03R2(c *Ctx) {
 				continue
 			}
 			fs := factsAt(is.st.Block())
+			if ph, isPhi := is.delta.(*ssa.Phi); isPhi && spec.delim < 0 && len(ph.Edges) == 2 {
+				// `take := len(buf); if take > left { take = left }; nextIdx += take; Write(buf[:take])`: the two arms
+				// of the sized read merged into one minimum. Each edge of the merged value is one arm, judged with the
+				// facts of that edge; the chunk must be cut at the merged value itself.
+				cut := false
+				eachInstr(f, func(in ssa.Instruction) {
+					sl, ok := in.(*ssa.Slice)
+					if ok && isChunk(sl.X) && sl.High != nil && sameValue(sl.High, ph) && (sl.Low == nil || isConstIntV(0)(sl.Low)) {
+						cut = true
+					}
+				})
+				for k, e := range ph.Edges {
+					pred := ph.Block().Preds[k]
+					fe := append(append([]fact{}, factsAt(pred)...), edgeFactsTo(pred, ph.Block())...)
+					lenOfChunk := func(v ssa.Value) bool { return isLenOf(v, isChunk) }
+					if isLenOf(e, isChunk) {
+						arms["whole"]++
+						c.check(factCmp(fe, token.LEQ, lenOfChunk, anyValue), key+".whole-chunk", c.ipos(is.st), "the whole chunk is consumed only when it holds no delimiter / fits the request", "the cursor skips the whole chunk although only part of it was consumed")
+					} else {
+						arms["left"]++
+						c.check(cut && factCmp(fe, token.GTR, lenOfChunk, isValue(e)), key+".exact-remainder", c.ipos(is.st), "a sized read takes exactly the bytes still wanted and cuts the chunk there", "sized read: cursor advance and chunk cut disagree, or are not on the chunk-longer-than-wanted edge")
+					}
+				}
+				continue
+			}
 			switch {
 			case isLenOf(is.delta, isChunk):
 				arms["whole"]++
